@@ -231,24 +231,25 @@ theorem firstIdxFrom_eq_findIdx {α : Type} (p q : α → Bool) (h : ∀ a, p a 
     unfold firstIdxFrom findIdx
     rw [h a, firstIdxFrom_eq_findIdx p q h as (k + 1)]
 
-/-- what one pass of the loop body decides for a stored occupancy: int time stamps by `==`, Interval time stamps by the
-    translated `Interval.contains` (Gen.Src, tied in T16) -/
-theorem ts_contains_eq (o : TS) (t : Int) :
-    (if tsIsInterval o then (if Gen.Interval_contains_num (tsInterval o) ((t : Int) : Rat) then true else false)
-      else (if tsIsInt o then (if decide (tsInt o = t) then true else false) else false)) = o.contains t := by
-  cases o with
-  | step s => by_cases h : s = t <;> simp [tsIsInterval, tsIsInt, tsInt, TS.contains, h]
-  | ival lo hi =>
-    simp [tsIsInterval, tsInterval, TS.contains, Gen.Interval_contains_num, Id.run, pure, Rat.intCast_le_intCast]
-
 /-- `Prediction.occupancy_at_time_step(t)` of the current source returns the FIRST stored occupancy whose time stamp contains
-    `t` (an int by equality, an Interval by closed containment), `None` when the loop runs to its end. -/
+    `t` (an int by equality, an Interval by closed containment — the translated `Interval.contains` of Gen.Src, tied in T16),
+    `None` when the loop runs to its end. -/
 theorem tie_prediction_occupancy (occs : List TS) (t : Int) :
     Gen.Prediction_occupancy_at_time_step occs t = .ok (findIdx (fun o => o.contains t) occs 0) := by
   unfold Gen.Prediction_occupancy_at_time_step
-  simp only [CR.Py.assert, if_true, bind, Except.bind]
-  rw [firstIdx, firstIdxFrom_eq_findIdx _ (fun o => o.contains t) (fun o => ts_contains_eq o t)]
-  cases findIdx (fun o => o.contains t) occs 0 <;> rfl
+  simp only [CR.Py.assert, if_true, bind, Except.bind, firstIdx]
+  rw [firstIdxFrom_eq_findIdx _ (fun o => o.contains t) ?h]
+  · cases findIdx (fun o => o.contains t) occs 0 <;> rfl
+  case h =>
+    intro o
+    cases o with
+    | step s =>
+      by_cases h : s = t
+      · simp [tsIsInterval, tsIsInt, tsInt, TS.contains, h]
+      · have h' : ¬ t = s := fun e => h e.symm
+        simp [tsIsInterval, tsIsInt, tsInt, TS.contains, h, h']
+    | ival lo hi =>
+      simp [tsIsInterval, tsIsInt, tsInterval, TS.contains, Gen.Interval_contains_num, Id.run, pure, Rat.intCast_le_intCast]
 
 /-- … which is the model's answer for a set-based prediction. -/
 theorem tie_prediction_set_based (occs : List TS) (t : Int) :
@@ -444,7 +445,7 @@ theorem tie_group_place (τ : Rat) (cosf sinf : Rat → Rat) (ss : List Shape) (
   unfold Gen.ShapeGroup_rotate_translate_local placeChk
   by_cases h : validOrientation τ a = true
   · simp only [h, CR.Py.assert, if_true, bind, Except.bind, pure, Except.pure]
-    rw [CR.Occ.foldl_append_all]
+    try rw [CR.Occ.foldl_append_all]
     simp [place, placeList_eq_map]
   · simp [h, CR.Py.assert, bind, Except.bind]
 
